@@ -272,12 +272,13 @@ theorem configure_override_dirty_iff_effective_value_changes (s : Store) (ks : K
     (id : Nat) (o : Obj) (x : Option Val) (sub : Str) (hm : ks.machine = .host) (hs : ks.sub = some sub)
     (hn : (ks.name == sPrefix) = false) (hbt : (ks.name == sBuildtype) = false)
     (g : GoodSub ks id s o x) (hv : validate o.kind v = .ok w) (hro : o.readonly = false) :
-    ∃ dirty s', setFromConfigure [(ks, some v)] false s = (.ok dirty, s') ∧
+    ∃ dirty s', setFromConfigureCommand [(ks, some v)] s = (.ok dirty, s') ∧
       (dirty = true ↔ getValueFor s ks ≠ .ok w) ∧ getValueFor s' ks = .ok w := by
   obtain ⟨c, s', h1, h2, h3, _⟩ := set_override_reports_change_iff_effective_value_changes s ks v w false id o x sub hm hs
     hn hbt g hv (Or.inl hro)
   refine ⟨c, s', ?_, h2, h3⟩
-  simp [setFromConfigure, configureOne, M.bind, setUserOption_override_eq s ks v false id o x sub hm hs g, h1, M.pure]
+  simp [setFromConfigureCommand, buildtypeFirst, hbt, setFromConfigure, configureOne, M.bind,
+    setUserOption_override_eq s ks v false id o x sub hm hs g, h1, M.pure]
 
 /-- **a registered, non-yielding option (global `n`, or a project option under its own key)**, every store, class,
 value and `first_invocation`: `changed` **iff** its effective value changes, and afterwards it is the new value -/
@@ -319,32 +320,34 @@ theorem buildtype_given_again_carries_dependents :
         btAgain sub setter old row.1 = (some (.str row.1), some (.bool row.2.2), some (.str row.2.1)) := by
   decide +kernel
 
-/-- "`buildtype` sets `debug`/`optimization` unless they are given explicitly" for a **per-project** buildtype on one
-`meson configure` command line, in either textual order … -/
+/-- "`buildtype` sets `debug`/`optimization` unless they are given explicitly" for a **per-project** buildtype
+(`:buildtype`, `sub:buildtype`) on one `meson configure` command line, in either textual order, and for `-D:buildtype`
+on the `meson setup` command line (after the repair of `set_from_configure_command` and
+`initialize_from_top_level_project_call`, which now move every `buildtype` entry to the front; before it the explicit
+value listed *before* the buildtype was overwritten: `-Dsub:optimization=g -Dsub:buildtype=release` gave `3`) -/
 def configure_buildtype_unless_explicit_full : Prop :=
-  ∀ (sub : Str) (explicitFirst : Bool), sub ∈ [[], "sub".toList] →
+  ∀ sub ∈ [[], "sub".toList], ∀ (explicitFirst : Bool),
     let k (n : Str) : Key := ⟨n, some sub, .host⟩
-    let a : Key × Option Val := (k sOptimization, some (.str "g".toList))
-    let b : Key × Option Val := (k sBuildtype, some (.str "release".toList))
-    (getValueFor (run (coreDataInit (Store.new false)).2 [.configure (if explicitFirst then [a, b] else [b, a])])
-      (k sOptimization)).toOption = some (.str "g".toList)
+    let bt : Key × Option Val := (k sBuildtype, some (.str "release".toList))
+    let conf (a : Key × Option Val) : Store :=
+      run (coreDataInit (Store.new false)).2 [.configure (if explicitFirst then [a, bt] else [bt, a])]
+    (getValueFor (conf (k sOptimization, some (.str "g".toList))) (k sOptimization)).toOption = some (.str "g".toList) ∧
+    (getValueFor (conf (k sDebug, some (.bool true))) (k sDebug)).toOption = some (.bool true) ∧
+    (getValueFor (conf (k sDebug, some (.bool true))) (k sOptimization)).toOption = some (.str "3".toList)
 
-/-- … is false of the code (recorded findings `bt-order:configure:*`, `bt-order:setup-cmd:*`): with the explicit
-`sub:optimization=g` listed *before* `sub:buildtype=release` the buildtype expansion overwrites it (`3`); only the
-global `buildtype` is moved to the front (`cmdline.parse_cmd_line_options`), `set_from_configure_command` applies the
-entries in dict order -/
-theorem configure_buildtype_unless_explicit_counterexample : ¬ configure_buildtype_unless_explicit_full := by
-  intro h
-  have := h "sub".toList true (by simp)
-  revert this
+theorem configure_buildtype_unless_explicit : configure_buildtype_unless_explicit_full := by
+  unfold configure_buildtype_unless_explicit_full
   decide +kernel
 
-/-- the partial form that holds: the explicit dependent listed *after* the per-project buildtype survives -/
-theorem configure_buildtype_unless_explicit_partial : ∀ sub ∈ [[], "sub".toList],
-    let k (n : Str) : Key := ⟨n, some sub, .host⟩
-    (getValueFor (run (coreDataInit (Store.new false)).2
-        [.configure [(k sBuildtype, some (.str "release".toList)), (k sOptimization, some (.str "g".toList))]])
-      (k sOptimization)).toOption = some (.str "g".toList) := by
+/-- the same on the `meson setup` command line for the top-level project's own `-D:buildtype` (the re-ordering in
+`cmdline.py` only knows the global key) -/
+theorem setup_root_buildtype_unless_explicit : ∀ (explicitFirst : Bool),
+    let k (n : Str) : Key := ⟨n, some [], .host⟩
+    let bt : Key × Val := (k sBuildtype, .str "release".toList)
+    let setup (a : Key × Val) : Store :=
+      run (coreDataInit (Store.new false)).2 [.initTop [] (reorderCmd (if explicitFirst then [a, bt] else [bt, a])) []]
+    (getValueFor (setup (k sOptimization, .str "1".toList)) (k sOptimization)).toOption = some (.str "1".toList) ∧
+    (getValueFor (setup (k sDebug, .bool true)) (k sDebug)).toOption = some (.bool true) := by
   decide +kernel
 
 /-! ## the documented eight-step order for subprojects -/
